@@ -578,12 +578,19 @@ def run(ctx):
     check_forwarding(ctx)
     check_operand_roles(ctx)
     check_result_arrays(ctx)
+    # "each result handle reads the corresponding field of pair i's link-layer response": on the controller the i-th response consumed
+    # for a request gets pair index i; the consumption loop is executed abstractly over all short pending lists (rule shared with C12)
+    from . import c12
+    c12.check_consumption(ctx, ctx.repo.get_class("netqasm.backend.executor", "Executor"), "C11.X")
     # 0 is an ordinary id / value / address: nothing int-valued may be tested by truthiness (nqsa/truth.py)
     from .. import truth
     truth.check(ctx, "C11.Z", ['netqasm.sdk.build_epr', 'netqasm.sdk.epr_socket', 'netqasm.qlink_compat', 'netqasm.backend.executor'])
     # a value remembered for later calls is keyed by every argument it depends on (nqsa/memo.py)
     from .. import memo
     memo.check(ctx, "C11.K", ['netqasm.sdk.build_epr', 'netqasm.sdk.epr_socket', 'netqasm.qlink_compat', 'netqasm.backend.executor'])
+    # no type test that an earlier type test has already decided (a subclass tested after its base class: nqsa/shadow.py)
+    from .. import shadow
+    shadow.check(ctx, "C11.H", ['netqasm.sdk.build_epr', 'netqasm.sdk.epr_socket', 'netqasm.qlink_compat', 'netqasm.backend.executor'])
 
 
 BEF = "netqasm/sdk/build_epr.py"
